@@ -208,7 +208,8 @@ impl BitEnc {
             // as many copies of value as possible.
             let mut value_block = 0;
             {
-                let mut v = u32::from(value);
+                // mask the value to the encoding width, as `push` and `set` do
+                let mut v = u32::from(value) & self.mask;
                 for _ in 0..32 / self.width {
                     value_block |= v;
                     v <<= self.width;
